@@ -17,6 +17,9 @@ import (
 // setcache, merge steps write / caches / purge) are forced on a real Center + permanent
 // database through the verif gates in (Leveldb|Redis)Permanent.State. A merge is one call
 // on the real code, so only schedules whose merge steps are contiguous can be forced.
+// ["m","write","tempcache"|"notempcache"]: whether the merged block was written with a state cache
+// (SetStateCache), ["x","reopen"]: the permanent database and Center are created again over the
+// stored data.
 
 type FCase struct {
 	ID     int            `json:"id"`
@@ -74,6 +77,10 @@ const gateWait = 5 * time.Second
 
 // PermFactory lets C26 force the same schedules on the Redis back-end.
 var PermFactory func(*DB) (isaac.PermanentDatabase, error)
+
+// PermFactoryReopens: a second call of PermFactory for the same DB opens the data the first one stored
+// (needed for the ["x","reopen"] step of a schedule; else such schedules are not forced).
+var PermFactoryReopens bool
 
 // Forced is the "forced" mode (exported for C26, which sets PermFactory first).
 func Forced(fl map[string]string) error { return forced(fl) }
@@ -138,7 +145,7 @@ func forceOne(env *Env, c *FCase) FResult {
 	}
 
 	gen := NewGen(env)
-	db := NewDB(env, gen, "", 4096, c.WCache)
+	db := NewDB(env, gen, "", 4096, 0)
 	db.NewPerm = PermFactory
 
 	if err := db.Open(); err != nil {
@@ -156,24 +163,25 @@ func forceOne(env *Env, c *FCase) FResult {
 	theGate.mu.Unlock()
 
 	realh := 0
-	write := func(keys []string) error {
+	write := func(keys []string, wcache int) error {
 		b, err := gen.NewBlock(realh, 1, keys, -1, 0)
 		if err != nil {
 			return err
 		}
 
+		b.WCache = wcache
 		realh++
 
 		return db.WriteBlock(b)
 	}
 	// model height m is real height 2m: block 2m writes the key, block 2m+1 does not
-	if err := write([]string{"a"}); err != nil {
+	if err := write([]string{"a"}, -1); err != nil {
 		res.Why = err.Error()
 
 		return res
 	}
 
-	if err := write(nil); err != nil {
+	if err := write(nil, -1); err != nil {
 		res.Why = err.Error()
 
 		return res
@@ -259,19 +267,58 @@ func forceOne(env *Env, c *FCase) FResult {
 				continue // caches, purge: part of the same call
 			}
 
-			if err := write([]string{"a"}); err != nil {
+			wcache := c.WCache
+			if len(c.Sched[i]) > 2 {
+				wcache = -1
+				if c.Sched[i][2] == "tempcache" {
+					wcache = 64
+				}
+			}
+
+			if err := write([]string{"a"}, wcache); err != nil {
 				res.Why = err.Error()
 
 				return res
 			}
 
-			if err := write(nil); err != nil {
+			if err := write(nil, -1); err != nil {
 				res.Why = err.Error()
 
 				return res
 			}
 
 			if err := db.Center.MergeAllPermanent(); err != nil {
+				res.Why = err.Error()
+
+				return res
+			}
+
+			continue
+		}
+
+		if who == "x" { // reopen: no call is running (the spec's guard)
+			for _, r := range readers {
+				if r.at == "state-cache-miss" || r.at == "state-loaded" {
+					res.Why = fmt.Sprintf("step %d: reopen while %s is in flight", i, r.name)
+
+					return res
+				}
+			}
+
+			if PermFactory != nil && !PermFactoryReopens {
+				// (C26's factory hands out a fresh key prefix per call: a second permanent database would be empty)
+				res.Why = "reopen: the back-end factory does not reopen the same stored data"
+
+				return res
+			}
+
+			if err := db.Perm.Close(); err != nil {
+				res.Why = err.Error()
+
+				return res
+			}
+
+			if err := db.OpenOn(); err != nil {
 				res.Why = err.Error()
 
 				return res
